@@ -138,7 +138,7 @@ AllProps ==
   /\ Chk("C12_InvalidRejected", C12_InvalidRejected) /\ Chk("C16_DamagedRejected", C16_DamagedRejected)
   /\ Chk("C17_ContradictionReported", C17_ContradictionReported) /\ Chk("C17_HistoryKept", C17_HistoryKept) /\ Chk("C17_OthersUnaffected", C17_OthersUnaffected)
   /\ Chk("C18_Twin", T_C18_Twin)
-  /\ Chk("C20_StatusTruth", C20_StatusTruth)
+  /\ Chk("C20_StatusTruth", C20_StatusTruth) /\ Chk("C20_FailuresOnce", C20_FailuresOnce)
 
 Accepted == IF TLCGet("stats").diameter - 1 = Len(Rec) THEN PrintT(<<"ACCEPTED", Len(Rec)>>)
             ELSE PrintT(<<"REJECTED", TLCGet("stats").diameter, Rec[TLCGet("stats").diameter]>>)
